@@ -140,6 +140,19 @@ func (c20) Exec(h []Ev) []Ev {
 						dvSame = false
 					}
 				}
+				if GI(e["tag"]) == 176 && GI0(e["ord"])%2 == 1 {
+					// decoders of separate descriptors running at the same time (eight goroutines, each with its own profile / level)
+					body := GB(e["body"])
+					if !parSame(8, 200, func(k int) string {
+						own := append([]byte(nil), body...)
+						if len(own) >= 4 {
+							own[2], own[3] = own[2]^byte(k<<1), own[3]^byte(k<<3)&0x78
+						}
+						return psi.NewPmtDescriptor(176, own).DecodeDolbyVisionCodec("hvc1")
+					}) {
+						dvSame = false
+					}
+				}
 				e["dv_codec_same"] = dvSame
 				e["is_lang"] = d.IsIso639LanguageDescriptor()
 				e["is_maxbr"] = d.IsMaximumBitrateDescriptor()
